@@ -231,6 +231,37 @@ class NeuralUCB(RLAlgorithm):
 
         return action
 
+    def load_checkpoint(self, path: str) -> None:
+        """Loads saved agent properties and network weights from checkpoint.
+
+        :param path: Location to load checkpoint from
+        :type path: string
+        """
+        super().load_checkpoint(path)
+        # NOTE: The checkpoint stores a pickled copy of the output layer. Point exp_layer
+        # back at the output layer of the restored network, whose gradients get_action reads
+        self.exp_layer = self.actor.get_output_dense()
+
+    @classmethod
+    def load(
+        cls,
+        path: str,
+        device: str = "cpu",
+        accelerator: Optional[Any] = None,
+    ):
+        """Loads an algorithm from a checkpoint.
+
+        :param path: Location to load checkpoint from.
+        :type path: string
+        :param device: Device to load the algorithm on, defaults to 'cpu'
+        :type device: str, optional
+        :param accelerator: Accelerator object for distributed computing, defaults to None
+        :type accelerator: Optional[Accelerator], optional
+        """
+        agent = super().load(path, device=device, accelerator=accelerator)
+        agent.exp_layer = agent.actor.get_output_dense()
+        return agent
+
     def learn(self, experiences: ExperiencesType) -> float:
         """Updates agent network parameters to learn from experiences.
 
